@@ -71,6 +71,16 @@ func round8Rows(pid string) []handRow {
 			{prog: "BEGIN { g = 1; match ('a') { 'a' => { g = 2; loc = 3 } } print g, loc is unknown }", class: "ok", want: "2 true\n"},
 			{prog: "{ match ($) { 1 => { seen = 'one' }, 2 => { print seen is unknown } } }", in: "[1,2]", class: "ok", want: "true\n"},
 		}
+	case "C09":
+		// ninth round: a string key that spells a number is a string key - the missing container becomes an object, and an
+		// existing array refuses it
+		return []handRow{
+			{prog: "BEGIN { o = {}; o.m['2'] = 7; print o.m; o.q['10'].z = 1; print o.q }", class: "ok", want: "{\"2\": 7}\n{\"10\": {\"z\": 1}}\n"},
+			{prog: "{ $.m['2'] = 7; print $.m is object, $.m['2'], $.m.length() }", in: `{"a":1}`, class: "ok", want: "true 7 1\n"},
+			{prog: "BEGIN { a = [1]; print 'pre'; a['0'] = 5; print 'post', a }", class: "runtime", want: "pre\n"},
+			{prog: "BEGIN { x.k['1.5'] = 1; print x.k; y.k[2] = 1; print y.k }", class: "ok", want: "{\"1.5\": 1}\n[null, null, 1]\n"},
+			{prog: "BEGIN { k = '3'; t.list[k] = 'v'; n = 1; t.arr[n] = 'w'; print t.list, t.arr }", class: "ok", want: "{\"3\": \"v\"} [null, \"w\"]\n"},
+		}
 	case "C10":
 		return nil // see round8C10
 	case "C11":
